@@ -82,6 +82,7 @@ type wctx struct {
 	tip       accountant.Vertex // newest vertex of the node under test
 	sealedTrx [32]byte          // hash of a transaction that is in the ledger
 	awaited   *pb.Transaction   // the awaiting contract (in the cache in S1; merely well-formed in S0)
+	awaited2  *pb.Transaction   // a second awaiting contract that also moves 2^64-1 units: nobody can afford it
 	challenge map[string][]byte
 }
 
@@ -125,10 +126,14 @@ type gossipAccounter interface {
 	ReadVertex(ctx context.Context, h [32]byte) (accountant.Vertex, error)
 }
 
-// baseTrxShape is the all-base token vector of a Transaction: the awaiting contract A -> B.
-func baseTrx(cons bool) *pb.Transaction {
+// baseTrx is the all-base token vector of a Transaction: the awaiting contract A -> B; over replaces tokens.
+func baseTrx(cons bool, over ...string) *pb.Transaction {
 	s := schemaTransaction(false)
-	return buildTrx(s.getter(shape{tok: s.baseTok()}), "", cons)
+	tok := s.baseTok()
+	for i := 0; i+1 < len(over); i += 2 {
+		tok[s.idx[over[i]]] = over[i+1]
+	}
+	return buildTrx(s.getter(shape{tok: tok}), "", cons)
 }
 
 // buildWorld resets the two process-wide nodes and constructs S0 or S1 (inside a controlled execution).
@@ -150,6 +155,7 @@ func buildWorld(full []*world.FullNode, state string) *wctx {
 	w.wh = webhooksserver.NewVerifApp(full[0].Log, w.ver, w.hooks)
 	vsched.Settle()
 	w.awaited = baseTrx(true)
+	w.awaited2 = baseTrx(true, "Spice.Currency", "max")
 	w.sealedTrx = w.lw.Genesis.Transaction.Hash
 	if state == "S1" {
 		R, A, B := world.Cast("R"), world.Cast("A"), world.Cast("B")
@@ -177,6 +183,7 @@ func buildWorld(full []*world.FullNode, state string) *wctx {
 				Spice: &pb.Spice{Currency: t.Spice.Currency, SupplementaryCurrency: t.Spice.SupplementaryCurrency}})
 		}
 		propose(baseTrx(true))
+		propose(baseTrx(true, "Spice.Currency", "max"))
 		if n := len(w.n0.Cache.VerifDump()); n == 0 {
 			panic("c15: S1 setup: the awaiting contract is not in the cache")
 		}
